@@ -108,6 +108,37 @@ func applyIgnore(bt *gen.Built, lineID int, c ignCase, code string, rng *base.Ra
 			return false, ""
 		}
 		n.Lead = append(n.Lead, ig)
+	case "lead-stmt-last-in-clause":
+		// the statement of the diagnostic becomes the LAST statement of a case clause (a clause has no closing token of
+		// its own: the statement ends exactly where the clause ends); the comment leads it, its scope is that statement
+		if c.where != "in" || !self.IsStatement() || len(self.N.Pre) == 0 {
+			return false, ""
+		}
+		pfirst := strings.TrimSpace(self.Parent.Pre[0].Text)
+		holdsStatements := false
+		for _, pre := range []string{"func ", "if ", "for ", "case ", "default:", "{"} {
+			holdsStatements = holdsStatements || strings.HasPrefix(pfirst, pre) && (strings.HasSuffix(pfirst, "{") || strings.HasSuffix(pfirst, ":"))
+		}
+		if !holdsStatements || len(self.Parent.Pre) != 1 {
+			return false, "" // an element of a literal, a member of a var group, an argument line: not a statement list
+		}
+		first := strings.TrimSpace(self.N.Pre[0].Text)
+		if strings.Contains(first, ":=") || strings.HasPrefix(first, "var ") || strings.HasPrefix(first, "const ") || strings.HasPrefix(first, "type ") {
+			return false, "" // a declaration later statements may refer to: it cannot move into a clause
+		}
+		clauseHead := []string{"default:", "case true:", "case 1 > 0, false:"}[rng.Intn(3)]
+		clause := &gen.Node{Pre: []*gen.Line{p.NewLine(clauseHead)}, Kids: []*gen.Node{self.N}}
+		if rng.Bool() {
+			clause.Kids = []*gen.Node{{Pre: []*gen.Line{p.NewLine("_ = 0")}}, self.N}
+			desc += "+after-sibling"
+		}
+		sw := &gen.Node{Pre: []*gen.Line{p.NewLine("switch {")}, Kids: []*gen.Node{clause}, Post: []*gen.Line{p.NewLine("}")}}
+		if clauseHead != "default:" && rng.Bool() {
+			sw.Kids = append(sw.Kids, &gen.Node{Pre: []*gen.Line{p.NewLine("default:")}})
+			desc += "+clause-follows"
+		}
+		self.Parent.Kids[self.Index] = sw
+		self.N.Lead = append(self.N.Lead, ig)
 	case "lead-compound":
 		if c.where != "in" {
 			return false, ""
@@ -249,7 +280,7 @@ func checkC07(replay string) {
 		p  string
 		ws []string
 	}{{"trailing", []string{"in", "prev", "next"}}, {"lead-stmt", []string{"in", "prev", "next"}}, {"lead-compound", []string{"in"}},
-		{"lead-decl", []string{"in", "prev", "next"}}, {"lead-decl-gap", []string{"in", "next"}}, {"file", []string{"in", "other-file"}}, {"package-clause-trailing", []string{"in"}}, {"dangling-end-of-body", []string{"prev"}}, {"trailing-on-closing-line", []string{"in", "prev"}}} {
+		{"lead-decl", []string{"in", "prev", "next"}}, {"lead-decl-gap", []string{"in", "next"}}, {"file", []string{"in", "other-file"}}, {"package-clause-trailing", []string{"in"}}, {"dangling-end-of-body", []string{"prev"}}, {"trailing-on-closing-line", []string{"in", "prev"}}, {"lead-stmt-last-in-clause", []string{"in"}}} {
 		for _, w := range pl.ws {
 			placements = append(placements, ignCase{placement: pl.p, where: w})
 		}
